@@ -349,7 +349,8 @@ def run_property(prop_id, tier, modname, level="other", explanation="", assumpti
         st = sum((R["custom"] or {}).get("states", 0) for R in results.values())
         tr = sum((R["custom"] or {}).get("transitions", 0) for R in results.values())
         tv = sum((R["custom"] or {}).get("traces_validated_against_impl", 0) for R in results.values())
-        coverage.update(states=st, transitions=tr, traces_validated_against_impl=tv)
+        if st > 0 and tr > 0:
+            coverage.update(states=st, transitions=tr, traces_validated_against_impl=tv)
     ev = {"property_id": prop_id, "tier": tier, "seed": seed, "level": level, "coverage": coverage,
           "assumptions": assumptions or [], "wall_s": round(wall, 2), "violations": len(violations)}
     os.makedirs(os.path.join(VERIF, "evidence"), exist_ok=True)
